@@ -576,3 +576,9 @@ package j5schema
 //@   ensures wf: allPkgsOK()
 //@   loop 0 invariant allPkgsOK()
 //@   loop 1 invariant allPkgsOK() && pkg != nil && pkg.Schemas != nil
+
+// required containers (C04): an array or map property is required exactly when (buf.validate.field).required
+// says so — nothing else (item counts, pairs) makes it required
+//@ func (*Package).messageProperties
+//@   assert at append#0 array.required: prop != nil && (prop.Required <==> (ext.validate != nil && ext.validate.Required != nil && *ext.validate.Required))
+//@   assert at append#1 map.required: prop != nil && (prop.Required <==> (ext.validate != nil && ext.validate.Required != nil && *ext.validate.Required))
